@@ -8,6 +8,8 @@
   `Codec.decode`, which panics where the decoder does; `C12_decoder_panic_propagates_*` show that the hypothesis is
   necessary.  The harness ties `Total` to the real decoders (exhaustive octet / octet-pair sweep, PANIC oracle entries).
 -/
+import SA.Model.DnsFront
+import SA.Gen.C15DnsServer
 import SA.Proofs.DnsServer
 import SA.Proofs.DnsServerClient
 import SA.Model.DnsServerSites
@@ -414,3 +416,29 @@ theorem C12_client_decoders_reject_nul_and_have_a_codec :
 end SA.PkgState
 
 #print axioms SA.PkgState.C12_client_decoders_reject_nul_and_have_a_codec
+
+namespace SA.DnsFront
+/-- **only_single_question_queries_reach_the_handler**: with the library's default accept function every message that
+    reaches the handler is recomposed without a fault, whatever its names are — for all messages. -/
+theorem C12_accepted_messages_compose (m : Msg) (h : acceptedByDefault m = true) : (composeRequest m).isSome = true := by
+  obtain ⟨q, ns⟩ := m
+  simp only [acceptedByDefault, Bool.and_eq_true, beq_iff_eq] at h
+  match ns, h.2 with
+  | [n], _ => simp [composeRequest]
+
+/-- the code keeps the default: the only fields of the library's Server object it sets are the address, the network, the
+    TLS configuration and the handler table (regenerated) — no accept function of its own -/
+theorem C12_dns_server_keeps_default_filter :
+    Gen.dnsServerFieldsSet = ["Addr", "Handler", "Net", "TLSConfig"] := by decide
+
+/-- witness: an accept function without the one-question rule lets through messages that kill the process (two root
+    questions; no question at all) -/
+theorem C12_witness_multi_question :
+    acceptedAnyCount ⟨true, [[46], [46]]⟩ = true ∧ composeRequest ⟨true, [[46], [46]]⟩ = none ∧
+    acceptedAnyCount ⟨true, []⟩ = true ∧ composeRequest ⟨true, []⟩ = none ∧
+    acceptedByDefault ⟨true, [[46], [46]]⟩ = false ∧ acceptedByDefault ⟨true, []⟩ = false := by decide
+end SA.DnsFront
+
+#print axioms SA.DnsFront.C12_accepted_messages_compose
+#print axioms SA.DnsFront.C12_dns_server_keeps_default_filter
+#print axioms SA.DnsFront.C12_witness_multi_question
